@@ -1,7 +1,7 @@
 """C12 — compilation results depend only on the sources (not on hash seeds, module enumeration
 order, worker-thread count).
 
-Proof: lean/SamVerif/Props/C12.lean over Model/ErrorSet.lean, Model/Layout.lean, Model/MirRename.lean.
+Proof: lean/SamVerif/Props/C12.lean over Model/ErrorSet.lean, Model/Layout.lean, Model/MirFull.lean.
 Tie 1 (`errset` protocol): the real samlang_errors::ErrorSet (real Location / ModuleReference / PStr
         values, handles allocated in a generated order) against the Lean model, line by line, plus
         an independent Python ordering oracle and the merge-order metamorphic check.
@@ -11,7 +11,8 @@ Tie 2 (fresh processes): harness/src/bin/c12.rs, ONE invocation = ONE fresh proc
         verdict + rendered diagnostics exactly, behaviour of the emitted wasm and TS under Node 22,
         MIR before/after optimisation up to a bijective renaming constructed here (canon_mir).
 Oracle: the comparison across processes *is* the implementation-side property oracle (it does not
-        use the model).  Known findings C12-F1..F4 are matched by signature (see findings/C12.json).
+        use the model).  Open finding C12-F1 is matched by signature; C12-F2..F4 are fixed (regressions are violations;
+        their witnesses run first from corpus/C12/).
 """
 import json, os, re, subprocess, concurrent.futures as cf
 from . import common, scopegen
@@ -250,6 +251,19 @@ def gen_accepted(rng, idx):
             'let c = Cell.init((1, true)); let (a, _) = c.get(); let _ = Process.println(Str.fromInt(a));',
         ])
         src[f"aux.Side{k}"] = f"import {{ Cell }} from {cellmod};\nclass Main {{\n  function main(): unit = {{ {body} }}\n}}\n"
+    if rng.chance(1, 2):
+        # mutually recursive enums used by two Main.main in opposite order (C12-F3 shape)
+        src["mut.T"] = ("class Ma(NilA, ConsA(Mb)) {\n  method tag(): int = match (this) { NilA -> 0, ConsA(_) -> 1 }\n}\n"
+                        "class Mb(NilB, ConsB(Ma)) {\n  method tag(): int = match (this) { NilB -> 0, ConsB(_) -> 1 }\n}\n"
+                        "class Mc(OnlyC(Mb)) {\n  method tag(): int = match (this) { OnlyC(b) -> b.tag() + 2 }\n}\n"
+                        "class Mx(OnlyX(My)) {\n  method depth(): int = match (this) { OnlyX(y) -> y.depth() + 1 }\n}\n"
+                        "class My(NilY, ConsY(Mx)) {\n  method depth(): int = match (this) { NilY -> 0, ConsY(x) -> x.depth() + 1 }\n}\n")
+        src["mut.Side"] = ("import { Ma, Mb, Mc, Mx, My } from mut.T;\nclass Main {\n  function main(): unit = { let y = My.ConsY(Mx.OnlyX(My.NilY())); let _ = Process.println(Str.fromInt(y.depth())); let c = Mc.OnlyC(Mb.NilB()); let b = Mb.ConsB(Ma.NilA()); "
+                           "let a = Ma.ConsA(Mb.NilB()); let _ = Process.println(Str.fromInt(b.tag() + a.tag() + c.tag())); }\n}\n")
+        extra_imports.append("import { Ma, Mb, Mc, Mx, My } from mut.T;")
+        extra_calls.append(" Process.println(Str.fromInt(Mx.OnlyX(My.ConsY(Mx.OnlyX(My.NilY()))).depth()));")
+        extra_calls.append(" Process.println(Str.fromInt(Ma.ConsA(Mb.NilB()).tag() * 10 + Mb.ConsB(Ma.NilA()).tag()));"
+                           " Process.println(Str.fromInt(Mc.OnlyC(Mb.ConsB(Ma.NilA())).tag()));")
     main = scopegen.main_class(p)
     main = main.replace("function main(): unit = {", "function main(): unit = {" + "".join(extra_calls), 1)
     head = "".join(f"import {{ {', '.join(v)} }} from {k};\n" for k, v in sorted(imports.items()))
@@ -298,9 +312,13 @@ def err_snippets(rng, i, avoid_known=True):
         f"class Gn{i} {{ function <T> id(x: T): T = x\n  function f(): int = Gn{i}.id<int, bool>(3) + Gn{i}.id(\"s\") }}",
         f"class Lm{i} {{ function f(): int = {{ let g = (x) -> x; 1 }} }}",
         f"interface Fi{i} {{ function notAllowed(): int }}",
+        # long identifiers (heap strings) shared with other modules in a different order (C12-F2 shape)
+        (f"class Lg{i}(Sh{i}(int), {', '.join(n + '(int)' for n in (LONG if i % 2 == 0 else list(reversed(LONG))))}) {{\n"
+         f"  function f(e: Lg{i}): int = match (e) {{ Sh{i}(_) -> 1 }}\n  function g(e: Lg{i}): int = match (e) {{ {LONG[i % 4]}(_) -> 1, Sh{i}(0) -> 2 }}\n}}"),
+        (f"interface Jl{i} {{ method {LONG[0]}(): int method {LONG[1]}(): int method short(): int method {LONG[2]}(): int }}\nclass Kl{i} : Jl{i} {{ }}"),
         f"class Pr{i} {{ private function p(): int = 1 }}\nclass Pq{i} {{ function f(): int = Pr{i}.p() }}",
     ]
-    if not avoid_known:
+    if True:
         pool.append(f"interface Jm{i} {{ method a(): int method b(): int method c(): int }}\nclass Km{i} : Jm{i} {{ }}")
     return pool
 
@@ -404,24 +422,12 @@ def classify_diag_diff(ctx, prog, answers, orders):
             if all(len(v) == 1 for v in by_order.values()):
                 return fs["C12-F1"]
         return None
-    # block contents differ
-    diff_blocks = set()
-    for b in bl:
-        diff_blocks |= set(b) ^ set(bl[0])
-    longs = long_shared_idents(prog)
-    if "C12-F2" in fs and longs and all(any(n in b for n in longs) for b in diff_blocks):
-        return fs["C12-F2"]
-    if "C12-F4" in fs and all("The following members must be implemented" in b and b.count("\n- `") >= 2 for b in diff_blocks):
-        norm = lambda b: "\n".join(sorted(b.split("\n")))
-        if len({tuple(sorted(norm(x) for x in b)) for b in bl}) == 1:
-            return fs["C12-F4"]
+    # block contents differ: no open finding covers that (C12-F2, C12-F4 are fixed: a regression is a violation)
     return None
 
 
 def classify_behaviour_diff(ctx, prog, answers):
-    fs = {f["id"]: f for f in ctx.open_findings}
-    if "C12-F3" in fs and n_mains(prog) >= 2 and has_mutual_single_field_enums(prog):
-        return fs["C12-F3"]
+    """C12-F3 is fixed (e715c2f + 15327a3): no open finding covers a behaviour / layout difference."""
     return None
 
 # --------------------------------------------------------------------------- checking one program
@@ -517,7 +523,7 @@ def compare(ctx, prog, answers, orders, stats):
         eq0, eq1 = len(set(c0)) == 1, len(set(c1)) == 1
         if stats is not None:
             stats["mir0_equal" if eq0 else ("mir0_differs_multicapture" if mc else "mir0_differs")] += 1
-            stats["mir1_equal" if eq1 else "mir1_differs"] += 1
+            stats["mir1_equal" if eq1 else ("mir1_differs_multicapture" if mc else "mir1_differs")] += 1
             stats["traces"] += len(with_mir)
         if not eq0 and not mc:
             lay = {tuple(variant_lines(a["mir0"])) for a in with_mir}
@@ -700,6 +706,52 @@ def layout_leg(ctx, stats):
         ok += 1
     stats["layout_ok"] = ok
 
+# --------------------------------------------------------------------------- counterexample search under permuted constructor maps
+
+def cex_leg(ctx, stats):
+    """The exhaustiveness counterexample search (pattern_matching.rs incomplete_counterexample) walks a
+    HashMap of root constructors.  Reuses C07's case generator, harness (real parser + checker on one
+    generated module) and model driver: every case is checked 3 times per process (every check builds
+    its HashMaps with fresh RandomState keys) in 4 fresh processes; all 12 answers must be identical;
+    agreement with the Lean model of C07 (Model/Useful.lean, deterministic sorted walk) is counted."""
+    from . import c07
+    try:
+        common.build_harness("C07")
+        ok, _ = common.build_lean(["drv-c07"])
+    except common.BuildError:
+        ok = False
+    if not ok or not os.path.exists(common.harness_bin("C07")):
+        stats["cex_skipped"] = "C07 harness/driver unavailable"
+        return
+    rng = ctx.rng.fork()
+    n = ctx.scale(150, 2500)
+    cases = [c07.gen_case(rng.fork()) for _ in range(n)]
+    lines = [c07.case_line(c) for c in cases]
+    rep = [l for l in lines for _ in range(3)]
+    def one(_):
+        return common.run_exec(common.harness_bin("C07"), [], rep)[1]
+    with cf.ThreadPoolExecutor(max_workers=4) as ex:
+        outs = list(ex.map(one, range(4)))
+    rc, model, err = common.run_exec(common.driver_bin("C07"), [], lines)
+    agree = differ = nonexh = 0
+    for i, case in enumerate(cases):
+        answers = {o[3 * i + k] if 3 * i + k < len(o) else "<missing>" for o in outs for k in range(3)}
+        if len(answers) > 1:
+            ctx.violation("the checker's answer for one module differs between repetitions / fresh processes (exhaustiveness counterexample search over a HashMap of root constructors)",
+                          {"protocol": "cex", "source": c07.render_case(case), "answers": sorted(answers)})
+            return
+        iv = c07.impl_verdict(next(iter(answers)))
+        if iv.get("nonexh") is not None:
+            nonexh += 1
+            mv = c07.model_verdict(model[i]) if i < len(model) else {}
+            if mv.get("nonexh") == iv["nonexh"]:
+                agree += 1
+            else:
+                differ += 1
+    stats["evaluations"] += 12 * n
+    stats["cex"] = {"cases": n, "non_exhaustive": nonexh, "answers_compared_per_case": 12,
+                    "model_agrees": agree, "model_differs_(C07's business)": differ}
+
 # --------------------------------------------------------------------------- run / replay
 
 def probes(ctx, stats):
@@ -715,12 +767,6 @@ def probes(ctx, stats):
         a = run_configs([(mk_req(F1_PROBE, ["A", "B"]), 1), (mk_req(F1_PROBE, ["B", "A"]), 1)])
         if a[0].get("diag") != a[1].get("diag"):
             ctx.known(fs["C12-F1"]); stats["known"]["C12-F1"] = stats["known"].get("C12-F1", 0) + 1
-    if "C12-F2" in fs and distinct(F2_PROBE, 16, False, "diag") > 1:
-        ctx.known(fs["C12-F2"]); stats["known"]["C12-F2"] = stats["known"].get("C12-F2", 0) + 1
-    if "C12-F3" in fs and distinct(F3_PROBE, 16, False, "beh") > 1:
-        ctx.known(fs["C12-F3"]); stats["known"]["C12-F3"] = stats["known"].get("C12-F3", 0) + 1
-    if "C12-F4" in fs and distinct(F4_PROBE, 12, False, "diag") > 1:
-        ctx.known(fs["C12-F4"]); stats["known"]["C12-F4"] = stats["known"].get("C12-F4", 0) + 1
 
 
 def load_corpus():
@@ -738,11 +784,12 @@ def run(ctx):
     res = common.proof_gate(ctx, None)
     stats = {"evaluations": 0, "verdicts": {}, "known": {}, "error_kinds": {}, "diag_blocks": 0, "no_node": 0,
              "mir0_equal": 0, "mir0_differs": 0, "mir0_differs_multicapture": 0, "mir1_equal": 0,
-             "mir1_differs": 0, "traces": 0, "panics": []}
+             "mir1_differs": 0, "mir1_differs_multicapture": 0, "traces": 0, "panics": []}
     if not os.path.exists(BIN()):
         return ctx.finish(res, trusted=common.TRUSTED_COMMON)
     errset_leg(ctx, stats)
     layout_leg(ctx, stats)
+    cex_leg(ctx, stats)
     rng = ctx.rng
     samples, nontrivial = [], 0
     for prog in load_corpus():
@@ -784,12 +831,13 @@ def run(ctx):
                 "useless patterns, unresolved names/classes/members/modules, arity, duplicates, syntax errors, cyclic interfaces, "
                 "underconstrained generics, or-pattern bindings, struct bindings, private access)",
         "samples": samples, "traces_validated_against_impl": stats["traces"] + stats.get("errset_ok", 0) + stats.get("layout_ok", 0),
+        "counterexample_search_permuted_maps": stats.get("cex", stats.get("cex_skipped")),
         "layout_cases_ok": stats.get("layout_ok", 0), "layout_cases_skipped": stats.get("layout_skipped", 0),
         "programs": n_acc + n_rej + n_seed, "program_streams": {"accepted_stream": n_acc, "rejected_stream": n_rej, "root_complete_nested_gap_stream": n_seed},
         "processes_per_program": {"accepted": p_acc, "rejected": p_rej},
         "verdict_histogram": stats["verdicts"], "error_kind_histogram": stats["error_kinds"],
         "diag_blocks_total": stats["diag_blocks"],
-        "mir_up_to_renaming": {k: stats[k] for k in ("mir0_equal", "mir0_differs", "mir0_differs_multicapture", "mir1_equal", "mir1_differs")},
+        "mir_up_to_renaming": {k: stats[k] for k in ("mir0_equal", "mir0_differs", "mir0_differs_multicapture", "mir1_equal", "mir1_differs", "mir1_differs_multicapture")},
         "errset_lines": stats.get("errset_lines", 0), "known_finding_hits": stats["known"],
         "node_missing_programs": stats["no_node"],
         "compiler_panics_same_in_every_process": stats["panics"]})
@@ -798,7 +846,7 @@ def run(ctx):
         "rayon's scheduler and SipHash are not modelled: the theorems quantify over all merge orders / enumeration orders / id assignments, the fresh-process runs supply concrete schedules and seeds",
     ]
     return ctx.finish(res, trusted=common.TRUSTED_COMMON + [
-        "hand-written models Model/ErrorSet.lean (BTreeSet as strictly sorted list, derived Ord as lexicographic key), Model/Layout.lean, Model/MirRename.lean",
+        "hand-written models Model/ErrorSet.lean (BTreeSet as strictly sorted list, derived Ord as lexicographic key), Model/Layout.lean, Model/MirFull.lean",
         "MIR canonicaliser canon_mir (vlib/c12.py): decides 'equal up to a bijective renaming' on the debug dumps",
         "Node >= 22 as execution oracle for the emitted wasm/TS",
     ])
